@@ -4,6 +4,7 @@ import ClaripyProofs.Lemmas.VSA.Lub
 import ClaripyProofs.Lemmas.VSA.Members
 import ClaripyProofs.Lemmas.VSA.MinMax
 import ClaripyProofs.Lemmas.VSA.EvalExact
+import ClaripyProofs.Lemmas.VSA.MeetFinal
 /-!
 # C22 — joins, meets, widening and queries agree with the members
 
@@ -160,8 +161,36 @@ theorem meet_unaligned_unsound : ¬ C22_meet_full := by
     (by decide) (by decide) (by decide) trivial (by decide) (by decide) (by decide)
   exact absurd this (by decide)
 
-/-- what remains to be proved -/
-def C22_meet_aligned : Prop := MeetSound SI.intersection bothAligned
+/-- aligned operands in the form the constructor returns (`renorm` is the identity: a full circle with stride 1 is
+written `[0, 2^w - 1]` — the only form Python can hold) -/
+def alignedNormal : SI → SI → Prop := fun a b => a.Aligned ∧ b.Aligned ∧ a.renorm = a ∧ b.renorm = b
+
+/-- **`intersection` contains every common member of aligned operands**, for every width: the seven configurations of
+`_multi_valued_intersection` (`Lemmas/VSA/MeetTop.lean`), `_minimal_common_integer` over the pieces of `_ssplit`
+(`MeetMin.lean`) and `diop_natural_solution_linear` returning the least natural solution (`MeetDiop.lean`) -/
+theorem C22_meet_aligned : MeetSound SI.intersection alignedNormal := by
+  intro a b r x ha hb hbits hg hx hy h
+  obtain ⟨hA, hB, nA, nB⟩ := hg
+  exact (meet_sound a.bits a b r ⟨ha, rfl⟩ ⟨hb, hbits.symm⟩ hx.1 hy.1 hA hB nA nB h).2 x hx hy
+
+/-- closure of `intersection` on such operands -/
+theorem C22_meet_closed (a b r : SI) (ha : a.WF) (hb : b.WF) (hbits : a.bits = b.bits) (hab : a.bottom = false)
+    (hbb : b.bottom = false) (hg : alignedNormal a b) (h : a.intersection b = .ok r) : r.WF ∧ r.bits = a.bits :=
+  (meet_sound a.bits a b r ⟨ha, rfl⟩ ⟨hb, hbits.symm⟩ hab hbb hg.1 hg.2.1 hg.2.2.1 hg.2.2.2 h).1
+
+/-- non-vacuity: two wrapping operands whose arcs overlap at both ends (two partial results, joined) -/
+example : alignedNormal (SI.new 4 3 11 4) (SI.new 4 2 4 12) ∧ (SI.new 4 3 11 4).mem 14 ∧ (SI.new 4 2 4 12).mem 4 ∧
+    (∃ r, (SI.new 4 3 11 4).intersection (SI.new 4 2 4 12) = .ok r ∧ r.mem 4 ∧ ¬ r.mem 14) := by
+  refine ⟨by unfold alignedNormal; decide, by decide, by decide, ⟨_, rfl, by decide, by decide⟩⟩
+
+/-- the normal form is part of the guard: on the model a full circle written `1[5, 4]` (which the Python constructor
+would rewrite to `[0, 15]`) makes `_is_surrounded` answer "top" while `_minimal_common_integer` still splits it at 5, and
+the common member 2 is lost.  Not reachable through the constructor of the real class. -/
+theorem meet_nonnormal_unsound : ¬ MeetSound SI.intersection bothAligned := by
+  intro h
+  have := h { bits := 4, stride := 3, lb := 2, ub := 11 } { bits := 4, stride := 1, lb := 5, ub := 4 }
+    (SI.new 4 3 5 11) 2 (by decide) (by decide) (by decide) (by unfold bothAligned; decide) (by decide) (by decide) (by decide)
+  exact absurd this (by decide)
 
 /-! ## max — wrong when the upper bound is not a member (finding C22-max-unaligned, D20) -/
 
